@@ -92,10 +92,10 @@ def run(ctx):
                        'system level: generated programs are valid PTG (each consumed version has one producer)']
     rng = random.Random(ctx.seed * 7919 + 7)
     shapes = list(QUICK_SHAPES)
-    batches = 380
+    batches = 260
     if thorough:
-        shapes += random_shapes(rng, 176)
-        batches = 1100
+        shapes += random_shapes(rng, 96)
+        batches = 900
     jobs = []
     for i, sh in enumerate(shapes):
         flavour = 'asan' if i % 2 == 0 else 'rel'
@@ -146,10 +146,231 @@ def run(ctx):
 
 
 # ---------------------------------------------------------------------------------------------------------------
-# system level: generated PTG programs with wide fan-in on the real runtime
+# system level: generated PTG programs with wide fan-in on the real runtime (ready copies per instance)
+import subprocess
+
+SYS_VARIANTS = [  # K data flows of the consumer, control gather (=> counter mode), count_deps property, ptgpp -M
+    (2, 0, 0, 'index-array'), (5, 1, 0, 'dynamic-hash-table'), (10, 0, 0, 'dynamic-hash-table'), (4, 0, 1, 'index-array'), (10, 1, 0, 'index-array'), (1, 0, 0, 'dynamic-hash-table')]
+SCHEDS_SAFE = ['ap', 'gd', 'ip', 'lfq', 'lhq', 'll', 'llp', 'pbq', 'rnd', 'spq']     # ltq: recorded C08 finding under ASan
+
+
+def sys_jdf(K, gather, countdeps):
+    o = []
+    o.append('extern "C" %{\n#include "parsec.h"\n#include "parsec/data_internal.h"\n#include <stdint.h>\n#include "c07sys.h"\n%}\n')
+    o.append('NC   [ type="int" ]\nNG   [ type="int" ]\nJ0   [ type="int" ]\nW    [ type="int" ]\nNR   [ type="int" ]\nD    [ type="parsec_data_collection_t*" ]\n\n')
+    o.append('P(q, j)\nq = 0 .. %d\nj = 0 .. NC-1\n: D( j )\nWRITE X ' % (K - 1))
+    o.append('\n        '.join('-> (q == %d) ? F%d C( j )' % (q, q) for q in range(K)))
+    o.append('\nBODY\n{\n    *(int64_t*)X = c07_val(q, j);\n    c07_pred_done(0, q, j);\n}\nEND\n\n')
+    o.append('M(j)\nj = J0 .. NC-1\n: D( j )\nWRITE X -> FM C( j )\nBODY\n{\n    *(int64_t*)X = c07_val(100, j);\n    c07_pred_done(1, 0, j);\n}\nEND\n\n')
+    if gather:
+        o.append('G(j, g)\nj = 0 .. NC-1\ng = 0 .. NG-1\n: D( j )\nCTL Z -> Z C( j )\nBODY\n{\n    c07_pred_done(2, g, j);\n}\nEND\n\n')
+    o.append('C(j)%s\nj = 0 .. NC-1\n: D( j )\n' % (' [ count_deps = 1 ]' if countdeps else ''))
+    for q in range(K):
+        o.append('READ F%d <- X P( %d, j )\n' % (q, q))
+    o.append('READ FM <- (j < J0) ? D( j ) : X M( j )\n')
+    if gather:
+        o.append('CTL Z <- Z G( j, 0 .. NG-1 )\n')
+    o.append('CTL Y -> Y R( j / W )\nBODY\n{\n    int64_t in[%d];\n' % (K + 1))
+    for q in range(K):
+        o.append('    in[%d] = *(int64_t*)F%d;\n' % (q, q))
+    o.append('    c07_consumer(j, %d, in, *(int64_t*)FM);\n}\nEND\n\n' % K)
+    o.append('R(r)\nr = 0 .. NR-1\n: D( r )\nCTL Y <- Y C( r*W .. r*W+W-1 )\nBODY\n{\n    c07_final(r);\n}\nEND\n')
+    return ''.join(o)
+
+
+SYS_H = r"""#ifndef C07SYS_H
+#define C07SYS_H
+#include <stdint.h>
+int64_t c07_val(int q, int j);
+void c07_pred_done(int kind, int q, int j);
+void c07_consumer(int j, int k, int64_t *in, int64_t fm);
+void c07_final(int r);
+#endif
+"""
+
+SYS_DRV = r"""/* generated driver: wide fan-in PTG program, monitor of "each instance runs once, after all its predecessors" */
+#include "parsec.h"
+#include "parsec/data_internal.h"
+#include "parsec/execution_stream.h"
+#include "c07sys.h"
+#include "c07prog.h"
+#include "kit.h"
+#include <mpi.h>
+#include <stdarg.h>
+#define MAXC 1024
+#define MAXQ 12
+#define MAXG 64
+static int K = C07_K, GATHER = C07_GATHER, NC, NG, J0, W, NR;
+static int64_t store[MAXC]; static parsec_data_t *dt[MAXC];
+static volatile int32_t cntC[MAXC], cntP[MAXQ][MAXC], cntM[MAXC], cntG[MAXG][MAXC], cntR[MAXC], arrive[MAXC];
+static volatile uint64_t doneP[MAXQ][MAXC], doneM[MAXC], doneG[MAXG][MAXC], enterC[MAXC], exitC[MAXC];
+static volatile long n_rdv_full;
+int64_t c07_val(int q, int j) { return (int64_t)vf_mix((uint64_t)q + 11, (uint64_t)j + 5) >> 1; }
+static int npred(int j) { return K + (j >= J0 ? 1 : 0) + (GATHER ? NG : 0); }
+void c07_pred_done(int kind, int q, int j)
+{
+    /* race amplifier: the predecessors of C(j) leave their bodies together (bounded wait, never blocking) */
+    int need = npred(j); if (need > 16) need = 16;
+    __atomic_fetch_add(&arrive[j], 1, __ATOMIC_SEQ_CST);
+    int sp; for (sp = 0; sp < 20000 && __atomic_load_n(&arrive[j], __ATOMIC_RELAXED) < need; sp++) __builtin_ia32_pause();
+    if (sp < 20000) __atomic_fetch_add(&n_rdv_full, 1, __ATOMIC_RELAXED);
+    uint64_t s = vf_stamp();
+    if (kind == 0) { __atomic_fetch_add(&cntP[q][j], 1, __ATOMIC_SEQ_CST); doneP[q][j] = s; }
+    else if (kind == 1) { __atomic_fetch_add(&cntM[j], 1, __ATOMIC_SEQ_CST); doneM[j] = s; }
+    else { __atomic_fetch_add(&cntG[q][j], 1, __ATOMIC_SEQ_CST); doneG[q][j] = s; }
+    VF_TICK();
+}
+void c07_consumer(int j, int k, int64_t *in, int64_t fm)
+{
+    uint64_t e = vf_stamp();
+    int n = __atomic_add_fetch(&cntC[j], 1, __ATOMIC_SEQ_CST);
+    if (n > 1) vf_violation("sys:" C07_MODE ":instance-ran-twice", "C(%d) body entered %d times (K=%d gather=%d NG=%d)", j, n, K, GATHER, NG);
+    enterC[j] = e;
+    for (int q = 0; q < k; q++) {
+        if (doneP[q][j] == 0 || doneP[q][j] > e) vf_violation("sys:" C07_MODE ":ran-before-predecessor", "C(%d) entered at %llu but its input F%d from P(%d,%d) was %s", j, (unsigned long long)e, q, q, j, doneP[q][j] ? "produced later" : "not produced yet");
+        else if (in[q] != c07_val(q, j)) vf_violation("sys:" C07_MODE ":wrong-input", "C(%d) flow F%d holds %lld, expected %lld", j, q, (long long)in[q], (long long)c07_val(q, j));
+    }
+    if (j >= J0) { if (doneM[j] == 0 || doneM[j] > e) vf_violation("sys:" C07_MODE ":ran-before-predecessor", "C(%d) entered before M(%d) finished", j, j);
+                   else if (fm != c07_val(100, j)) vf_violation("sys:" C07_MODE ":wrong-input", "C(%d) flow FM holds %lld, expected %lld", j, (long long)fm, (long long)c07_val(100, j)); }
+    else if (fm != 7000 + j) vf_violation("sys:" C07_MODE ":wrong-input", "C(%d) flow FM (from the collection) holds %lld, expected %d", j, (long long)fm, 7000 + j);
+    if (GATHER) for (int g = 0; g < NG; g++) if (doneG[g][j] == 0 || doneG[g][j] > e) { vf_violation("sys:" C07_MODE ":ran-before-predecessor", "C(%d) entered before control G(%d,%d) finished", j, j, g); break; }
+    exitC[j] = vf_stamp();
+    VF_TICK();
+}
+void c07_final(int r)
+{
+    uint64_t e = vf_stamp();
+    int n = __atomic_add_fetch(&cntR[r], 1, __ATOMIC_SEQ_CST);
+    if (n > 1) vf_violation("sys:counter:instance-ran-twice", "R(%d) body entered %d times (gather of %d)", r, n, W);
+    for (int j = r * W; j < r * W + W; j++) if (exitC[j] == 0 || exitC[j] > e) { vf_violation("sys:counter:ran-before-predecessor", "R(%d) entered before C(%d) finished (control gather of %d)", r, j, W); break; }
+}
+static uint32_t rank_of(parsec_data_collection_t *d, ...) { (void)d; return 0; }
+static uint32_t rank_of_key(parsec_data_collection_t *d, parsec_data_key_t key) { (void)d; (void)key; return 0; }
+static int32_t vpid_of(parsec_data_collection_t *d, ...) { (void)d; return 0; }
+static int32_t vpid_of_key(parsec_data_collection_t *d, parsec_data_key_t k) { (void)d; (void)k; return 0; }
+static parsec_data_key_t data_key(parsec_data_collection_t *d, ...) { va_list ap; va_start(ap, d); int k = va_arg(ap, int); va_end(ap); (void)d; return (parsec_data_key_t)k; }
+static parsec_data_t *data_of_key(parsec_data_collection_t *d, parsec_data_key_t key) { int k = (int)key; if (!dt[k]) parsec_data_create(&dt[k], d, key, &store[k], sizeof(int64_t), PARSEC_DATA_FLAG_PARSEC_MANAGED); return dt[k]; }
+static parsec_data_t *data_of(parsec_data_collection_t *d, ...) { va_list ap; va_start(ap, d); int k = va_arg(ap, int); va_end(ap); return data_of_key(d, (parsec_data_key_t)k); }
+int main(int argc, char **argv)
+{
+    int prov; MPI_Init_thread(&argc, &argv, MPI_THREAD_SERIALIZED, &prov);
+    NC = (int)vf_arg_ll(argc, argv, "--nc", 64); NG = (int)vf_arg_ll(argc, argv, "--ng", 8); J0 = (int)vf_arg_ll(argc, argv, "--j0", 10);
+    W = (int)vf_arg_ll(argc, argv, "--w", 16); int cores = (int)vf_arg_ll(argc, argv, "--cores", 16);
+    if (W < 1) W = 1; if (W > 64) W = 64; NR = NC / W; if (NR < 1) { NR = 1; W = NC; } NC = NR * W;
+    if (NC > MAXC || NG > MAXG || NG < 1 || K > MAXQ || J0 > NC) { fprintf(stderr, "bad shape\n"); return 2; }
+    int pargc = 1; char *pv[2] = {argv[0], NULL}; char **pargv = pv;
+    parsec_context_t *ctx = parsec_init(cores, &pargc, &pargv);
+    if (!ctx) return 2;
+    parsec_data_collection_t D; parsec_data_collection_init(&D, 1, 0); D.default_dtt = parsec_datatype_int64_t;
+    D.rank_of = rank_of; D.rank_of_key = rank_of_key; D.vpid_of = vpid_of; D.vpid_of_key = vpid_of_key; D.data_key = data_key; D.data_of = data_of; D.data_of_key = data_of_key;
+    for (int k = 0; k < MAXC; k++) store[k] = 7000 + k;
+    vf_heartbeat_start();
+    parsec_c07prog_taskpool_t *tp = parsec_c07prog_new(NC, NG, J0, W, NR, &D);
+    parsec_arena_datatype_set_type(&tp->arenas_datatypes[PARSEC_c07prog_DEFAULT_ADT_IDX], sizeof(int64_t), PARSEC_ARENA_ALIGNMENT_SSE, parsec_datatype_int64_t);
+    parsec_context_add_taskpool(ctx, (parsec_taskpool_t *)tp); parsec_context_start(ctx); parsec_context_wait(ctx);
+    vf_heartbeat_stop();
+    long inst = 0, bad = 0, fanin_max = 0;
+    for (int j = 0; j < NC; j++) {
+        inst++; if (cntC[j] != 1) { bad++; vf_violation(cntC[j] ? "sys:" C07_MODE ":instance-ran-twice" : "sys:" C07_MODE ":instance-never-ran", "after termination C(%d) ran %d times", j, cntC[j]); }
+        for (int q = 0; q < K; q++) { inst++; if (cntP[q][j] != 1) { bad++; vf_violation("sys:startup:instance-count", "P(%d,%d) ran %d times", q, j, cntP[q][j]); } }
+        if (j >= J0) { inst++; if (cntM[j] != 1) { bad++; vf_violation("sys:startup:instance-count", "M(%d) ran %d times", j, cntM[j]); } }
+        if (GATHER) for (int g = 0; g < NG; g++) { inst++; if (cntG[g][j] != 1) { bad++; vf_violation("sys:startup:instance-count", "G(%d,%d) ran %d times", j, g, cntG[g][j]); } }
+        if (npred(j) > fanin_max) fanin_max = npred(j);
+    }
+    for (int r = 0; r < NR; r++) { inst++; if (cntR[r] != 1) { bad++; vf_violation(cntR[r] ? "sys:counter:instance-ran-twice" : "sys:counter:instance-never-ran", "after termination R(%d) ran %d times", r, cntR[r]); } }
+    vf_out("{\"type\":\"summary\",\"level\":\"system\",\"mode\":\"%s\",\"K\":%d,\"gather\":%d,\"NC\":%d,\"NG\":%d,\"J0\":%d,\"W\":%d,\"cores\":%d,\"instances\":%ld,\"bad\":%ld,\"max_fan_in\":%ld,\"rendezvous_full\":%ld}",
+           C07_MODE, K, GATHER, NC, NG, J0, W, cores, inst, bad, fanin_max, n_rdv_full);
+    fflush(stdout);
+    _exit(vf_nviolations ? 1 : 0);
+}
+"""
+
+
+def _write_if_changed(path, text):
+    try:
+        if open(path).read() == text:
+            return
+    except OSError:
+        pass
+    with open(path, 'w') as f:
+        f.write(text)
+
+
+def sys_build(ctx, flavour, variant):
+    """Generate + compile one program variant; sources live in the build tree and are only rewritten when they change."""
+    K, gather, cd, M = variant
+    ctx.build(flavour)
+    tag = 'k%d_g%d_c%d_%s' % (K, gather, cd, 'arr' if M == 'index-array' else 'hash')
+    d = os.path.join(vfbuild.bdir(flavour), 'harness', 'c07sys', tag)
+    os.makedirs(d, exist_ok=True)
+    _write_if_changed(os.path.join(d, 'c07prog.jdf'), sys_jdf(K, gather, cd))
+    _write_if_changed(os.path.join(d, 'c07sys.h'), SYS_H)
+    _write_if_changed(os.path.join(d, 'drv.c'), SYS_DRV)
+    gen = os.path.join(d, 'c07prog.c')
+    ptg = vfbuild.ptgpp(flavour)
+    stamp = max(os.path.getmtime(os.path.join(d, 'c07prog.jdf')), os.path.getmtime(ptg))
+    if not os.path.exists(gen) or os.path.getmtime(gen) < stamp:
+        p = subprocess.run([ptg, '-E', '-M', M, '-i', 'c07prog.jdf', '-o', 'c07prog'], cwd=d, stdout=subprocess.PIPE, stderr=subprocess.STDOUT, text=True)
+        if p.returncode != 0 or not os.path.exists(gen):
+            import vfcore
+            raise vfcore.HarnessError('ptgpp failed for %s: %s' % (tag, p.stdout[-2000:]))
+    mode = 'counter' if (gather or cd) else 'mask'
+    exe = ctx.harness('c07sys_' + tag, flavour, sources=[gen, os.path.join(d, 'drv.c')],
+                      extra_cflags=['-I' + d, '-DC07_K=%d' % K, '-DC07_GATHER=%d' % gather, '-DC07_MODE="%s"' % mode], outname='c07sys_' + tag)
+    return exe, mode
+
+
 def sys_prebuild(ctx):
-    pass
+    for i, v in enumerate(SYS_VARIANTS):
+        sys_build(ctx, 'asan' if i % 2 == 0 else 'rel', v)
 
 
 def sys_run(ctx):
-    pass
+    thorough = ctx.tier == 'thorough'
+    rng = random.Random(ctx.seed * 31 + 5)
+    jobs = []
+    n = 0
+    reps = 12 if thorough else 1
+    for i, v in enumerate(SYS_VARIANTS):
+        flavour = 'asan' if i % 2 == 0 else 'rel'
+        exe, mode = sys_build(ctx, flavour, v)
+        for _ in range(reps):
+            W = rng.choice([4, 16, 32, 64]); NR = rng.choice([1, 2, 4]); NC = W * NR
+            NG = rng.choice([1, 3, 8, 24, 64]) if v[1] else 1
+            if NC * (v[0] + NG) > 9000:
+                NG = max(1, 9000 // NC - v[0])
+            J0 = rng.choice([0, NC // 3, NC // 2, NC])
+            cores = rng.choice([2, 4, 8, 16, 16])
+            sched = rng.choice(SCHEDS_SAFE)
+            y = rng.choice([0, 100, 300])
+            env = {'PARSEC_MCA_mca_sched': sched}
+            if y:
+                env['PARSEC_VERIF_YIELD'] = '%d:%d:0:3' % (ctx.seed * 100 + n, y)       # sites DEPS_COUNTER | DEPS_MASK
+            jobs.append((n, flavour, v, mode, sched, env, [exe, '--nc', NC, '--ng', NG, '--j0', J0, '--w', W, '--cores', cores]))
+            n += 1
+
+    def one(j):
+        n, flavour, v, mode, sched, env, cmd = j
+        cmd = [str(c) for c in cmd]
+        what = 'system %s K=%d gather=%d count_deps=%d -M %s sched=%s %s %s' % (flavour, v[0], v[1], v[2], v[3], sched, env.get('PARSEC_VERIF_YIELD', ''), ' '.join(cmd[1:]))
+        r, st = ctx.run_with_stall_rule(lambda: ctx.run(cmd, env=env, timeout=900, stall_s=60, tag='y%d' % n), what)
+        return j, r, st
+
+    res = ctx.pmap(one, jobs, jobs=2)
+    nsys = 0
+    for (n, flavour, v, mode, sched, env, cmd), r, st in res:
+        if st == 'stalled':
+            ctx.inconclusive_case('stalled: system ' + ' '.join(str(c) for c in cmd[1:]))
+            continue
+        s = r.summary()
+        if not s:
+            continue
+        nontriv = s['instances'] >= 20 and s['max_fan_in'] >= 2
+        ctx.note_case(('sys', v, s['NC'], s['NG'], s['J0'], s['W'], s['cores'], sched, env.get('PARSEC_VERIF_YIELD', '')), nontrivial=nontriv)
+        ctx.add_cov('system_instances', s['instances']); ctx.add_cov('system_runs', 1); ctx.add_cov('system_rendezvous_full', s['rendezvous_full'])
+        ctx.max_cov('system_max_fan_in', s['max_fan_in'])
+        ctx.add_cov('system_runs_' + mode, 1)
+        if nsys < 1:
+            nsys += 1
+            ctx.sample({'level': 'system', 'flavour': flavour, 'mode': mode, 'sched': sched, 'shape': {k: s[k] for k in ('K', 'gather', 'NC', 'NG', 'J0', 'W', 'cores', 'instances', 'max_fan_in')},
+                        'jdf_head': sys_jdf(v[0], v[1], v[2])[:600]})
